@@ -143,7 +143,8 @@ TaskError(s, a, task, err) ==
 
 \* run_task epilogue: notify_task_fail and conversion of run-ending errors
 Fail(s, a, task, err) ==
-    Cb(TaskError(s, a, task, err), MkFail(s.now, Addr(a), TaskName(task), err))
+    LET s1 == TaskError(s, a, task, err)
+    IN IF s.A[a].exists THEN Cb(s1, MkFail(s.now, Addr(a), TaskName(task), err)) ELSE s1
 
 ReadComplete(s, a, task) ==
     CASE task.t = "integ" -> [AutoDone(s, a, "integ") EXCEPT !.A[a].integDone = TRUE, !.everInteg = TRUE]
@@ -324,6 +325,10 @@ AwaitRx(s) ==
         \* TransportResponse::Error: the task fails
         [Fail(s0, a, task, "Transport") EXCEPT !.pc = "Sched", !.cur = NoCur]
     ELSE IF f.fc = 130 THEN HandleUnsol(sL, f)
+    ELSE IF ~s.A[a].exists /\ f.seq = s.cur.seq /\ (IsRead(task) \/ AssocOf(f) = a) THEN
+        \* the association was removed while its task was running: the lookup of the association fails when the answer
+        \* is about to be processed (reads look it up before they check the source)
+        [DoneErr(s0, task, "NoSuchAssociation") EXCEPT !.pc = "Sched", !.cur = NoCur]
     ELSE IF AssocOf(f) # a \/ (f.seq # s.cur.seq /\ "H_AnySeq" \notin DEVM) THEN sL
     ELSE IF IsRead(task) THEN
         \* process_read_response
@@ -387,6 +392,7 @@ ProcMsg(s, m) ==
             ELSE IF s.pc = "Down" THEN DoneErr(s, m.task, "NoConnection")
             ELSE IF Len(s.A[a].queue) >= Assocs[a].maxq THEN DoneErr(s, m.task, "TooManyRequests")
             ELSE [s EXCEPT !.A[a].queue = Append(@, m.task)]
+      [] m.k \in {"poll_add", "poll_demand", "remove"} /\ ~s.A[m.a].exists -> Done(s, m.id, "NoSuchAssociation")
       [] m.k = "poll_add" ->
             Done([s EXCEPT !.A[m.a].polls = Append(@, [id |-> m.pid, period |-> m.period, next |-> s.now + m.period])],
                  m.id, "ok")
